@@ -592,7 +592,8 @@ def own_rules(ctx: Ctx, rule="R-OWN") -> None:
             continue
         for j in ast.walk(fn.node):
             if isinstance(j, ast.JoinedStr) and j.values and isinstance(j.values[0], ast.Constant) and isinstance(j.values[0].value, str) and j.values[0].value.startswith(("m:", "q:")):
-                ctx.check(fn.qualname in allowed_fmt, rule, fn, f"redis key literal {unparse(j)[:40]} in {fn.short()}", "keys built only by qnc/mnc", f"{fn.short()} builds a redis key by hand: {unparse(j)[:60]}",
+                is_pattern = isinstance(j.values[-1], ast.Constant) and isinstance(j.values[-1].value, str) and j.values[-1].value.endswith("*")  # a SCAN/KEYS glob, not the key of one message
+                ctx.check(fn.qualname in allowed_fmt or is_pattern, rule, fn, f"redis key literal {unparse(j)[:40]} in {fn.short()}", "keys built only by qnc/mnc", f"{fn.short()} builds a redis key by hand: {unparse(j)[:60]}",
                           node=j, instance=f"redis key literal in {fn.short()}")
 
 
